@@ -141,6 +141,11 @@ def iter_item(ctx, it, tag):
         chunk = Seq("slice", ln, q.elem, q.efacts, None, q.prov)
         return derived(ctx, chunk, tag + "chunk", mut=isinstance(ref, Ref) and ref.mut), True
     if k == "chars":
+        src = ctx.deref(it.a, tag + "chs") if isinstance(it.a, Ref) else None
+        if isinstance(src, Seq):
+            if D.hi(ctx.S.ivof(src.len)) == 0:
+                return None, True  # the empty string has no characters
+            ctx.S.add_fact(Lin.const(1).sub(ctx.S.term(src.len)))  # an item exists: len >= 1 (callers work on a state copy)
         return Scalar(ctx.fresh(tag + "ch", (0, 0x10FFFF))), True
     if k == "repeat":
         return it.a, False
@@ -775,17 +780,39 @@ def _route(ctx, on_pos, on_neg, kind):
         if T.dead:
             continue
         c2 = _sub_ctx(ctx, T, "case" + var)
+        if d is not None and d.ef:
+            # element facts known under this variant also hold for sequences held *by value* in the other arguments
+            # (a closure that captured the validated vectors)
+            c2.args = [_with_efacts(a, d.ef) for a in ctx.args]
         payload = e.variants[var][0] if e.variants[var] else None
         v = fn(c2, payload)
         cases.append((T, v))
     return join_cases(ctx, cases, "route")
 
 
+def _with_efacts(v, ef, depth=0):
+    if isinstance(v, Seq):
+        t = ef.get(v.len)
+        if t:
+            new = tuple(x for x in t if x not in v.efacts)
+            if new:
+                return Seq(v.kind, v.len, v.elem, v.efacts + new, v.data, v.prov)
+        return v
+    if depth > 4:
+        return v
+    if isinstance(v, Struct):
+        fs = [_with_efacts(f, ef, depth + 1) for f in v.fields]
+        return v if all(a is b for a, b in zip(fs, v.fields)) else Struct(v.path, fs)
+    if isinstance(v, Enum):
+        nv = {k: tuple(_with_efacts(f, ef, depth + 1) for f in fs) for k, fs in v.variants.items()}
+        return v if all(all(a is b for a, b in zip(nv[k], v.variants[k])) for k in nv) else Enum(v.path, nv, v.when)
+    return v
+
+
 def _callf(arg_index, wrap=None, with_payload=True):
     def run(c, payload):
         f = c.args[arg_index]
-        if mutating_closure(c, f):
-            c.pre("closure passed to a std combinator writes to captured state (not modelled)", False)
+        # (a closure that writes to captured state is fine here: it runs at most once, in this case's own state)
         r = call_callable(c, f, [payload] if (with_payload and payload is not None) else [], "f%d" % arg_index)
         if r is None:
             return None
@@ -1266,3 +1293,57 @@ def m_iter_once(ctx):
     cell = ("once",) + ctx.site
     ctx.S.cells[cell] = Arr([ctx.args[0]])
     return Iter("copied", Iter("slice", Ref(cell, (), False)), None, None, True)
+
+
+# bool::then_some / bool::then, Option::flatten, is_some_and / is_ok_and
+def _bool_cases(ctx, b, on_true, on_false, tag):
+    S = ctx.S
+    if not isinstance(b, Scalar):
+        return ctx.top_ret()
+    cases = []
+    for v, fn in ((1, on_true), (0, on_false)):
+        if not D.contains(S.bool_value(b.sym), v):
+            continue
+        T = S.copy()
+        T.assume_sym(b.sym, D.point(v))
+        if T.dead:
+            continue
+        c2 = _sub_ctx(ctx, T, tag + str(v))
+        cases.append((T, fn(c2)))
+    return join_cases(ctx, cases, tag)
+
+
+@M.reg("core::bool::<impl bool>::then_some")
+def m_then_some(ctx):
+    return _bool_cases(ctx, ctx.args[0], lambda c: _some(c.args[1]), lambda c: _none(), "ts")
+
+
+@M.reg("core::bool::<impl bool>::then")
+def m_then(ctx):
+    def on_true(c):
+        r = call_callable(c, c.args[1], [], "then")
+        return _some(r if r is not None else Opaque())
+
+    return _bool_cases(ctx, ctx.args[0], on_true, lambda c: _none(), "th")
+
+
+@M.reg("core::option::Option::<core::option::Option<T>>::flatten")
+def m_opt_flatten(ctx):
+    e = ctx.args[0]
+    if not isinstance(e, Enum):
+        return ctx.top_ret()
+    return _route(ctx, lambda c, payload: payload if isinstance(payload, Enum) else c.top_ret(), _none, OPT)
+
+
+@M.reg("core::option::Option::<T>::is_some_and", "core::result::Result::<T, E>::is_ok_and", "core::option::Option::<T>::is_none_or")
+def m_is_some_and(ctx):
+    e = ctx.args[0]
+    if not isinstance(e, Enum):
+        return bool_top(ctx)
+    kind = OPT if e.path == OPT else RES
+    neg = ctx.r["def"].endswith("is_none_or")
+
+    def const_bool(v):
+        return lambda c, payload: Scalar(c.I.const_sym(v, (0, 1), c.S))
+
+    return _route(ctx, _callf(1), const_bool(1 if neg else 0), kind)
